@@ -22,6 +22,7 @@
 #include <sys/mman.h>
 #include <sys/wait.h>
 #include <sys/types.h>
+#include <sys/time.h>
 
 #if defined(__SANITIZE_ADDRESS__)
 #  define SVMON_ASAN 1
@@ -389,8 +390,25 @@ namespace svmon
     _exit (sig == SIGALRM ? 75 : 71);
   }
 
+  // Per-case CPU-time watchdog (ITIMER_VIRTUAL counts only the CPU time this process consumes, so machine load
+  // cannot fire it): a case that normally takes milliseconds and burns `seconds` of CPU is a hang.
+  inline void on_cpu_timeout (int)
+  {
+    death_note ("hang");
+    _exit (76);
+  }
+
+  inline void case_watchdog (unsigned seconds)
+  {
+    struct itimerval it;
+    it.it_interval.tv_sec = 0; it.it_interval.tv_usec = 0;
+    it.it_value.tv_sec = seconds; it.it_value.tv_usec = 0;
+    setitimer (ITIMER_VIRTUAL, &it, 0);
+  }
+
   inline void install_death_handlers ()
   {
+    signal (SIGVTALRM, on_cpu_timeout);
     std::set_terminate (on_terminate);
     signal (SIGABRT, on_signal);
 #ifndef SVMON_ASAN
@@ -457,7 +475,7 @@ namespace svmon
   struct RunStats { long chunks; long deaths; };
 
   template <typename Fn>
-  inline RunStats run_forked (uint64_t first, uint64_t last, uint64_t chunk, Fn fn, unsigned timeout_s = 600, long max_deaths = 40)
+  inline RunStats run_forked (uint64_t first, uint64_t last, uint64_t chunk, Fn fn, unsigned timeout_s = 600, long max_deaths = 12)
   {
     RunStats st; st.chunks = 0; st.deaths = 0;
     CaseMarker *shared = static_cast<CaseMarker *> (
@@ -492,7 +510,7 @@ namespace svmon
       if (WIFEXITED (status))
       {
         int ec = WEXITSTATUS (status);
-        kind = ec == 70 ? "terminate" : ec == 71 ? "abort" : ec == 75 ? "timeout" : "sanitizer-or-exit";
+        kind = ec == 70 ? "terminate" : ec == 71 ? "abort" : ec == 75 ? "timeout" : ec == 76 ? "hang" : "sanitizer-or-exit";
       }
       else if (WIFSIGNALED (status))
         kind = WTERMSIG (status) == SIGSEGV ? "segv" : WTERMSIG (status) == SIGABRT ? "abort" : "signal";
